@@ -82,6 +82,17 @@ def gen_cases(tier, seed):
     m = "%012x" % rng.getrandbits(48)
     for cat in range(256):
         cases.append("gen action %s %s %s %d - - - - - - B64" % (m, m, m, cat))
+    # every single-octet argument of every generator over all 256 values (a table / mask / clamp on an argument shows only on the
+    # values it folds together): timing capabilities with its three power octets, the channel of every generator that takes one
+    for v in range(256):
+        w = (v * 7 + 3) % 256
+        cases.append("gen timing_ad %s %s %s %d %s %s %s %s %d %d,%d,%d - B4096" % (
+            m, m, m, v, hx([rng.randrange(256) for _ in range(10)]), hx([rng.randrange(256) for _ in range(5)]),
+            hx([rng.randrange(256)]), hx([rng.randrange(256) for _ in range(3)]), 513, w, (w * 3) % 256, 255 - v))
+        for k in KINDS_SSID:
+            cases.append(" ".join(("gen %s %s %s %s %s %d %s - - - - - B4096" % (k, m, m, m, "6e6574", v, m if k == "reassoc_req" else "-")).split()))
+        for k in ("assoc_resp", "reassoc_resp"):
+            cases.append("gen %s %s %s %s - %d - - - - - - B4096" % (k, m, m, m, v))
     for L in range(0, 256, 1 if tier != "quick" else 5):
         cases.append("gen beacon %s %s %s %s 1 - - - - - B400" % (m, m, m, rssid(rng, L)))
     if tier != "quick":
